@@ -279,3 +279,7 @@ Proof.
   specialize (H ltac:(lia) ltac:(lia) ltac:(vm_compute; discriminate) Hev ltac:(vm_compute; discriminate)).
   destruct H as (U & D & Dl & _ & _ & Acc). cbv zeta. repeat split; assumption.
 Qed.
+
+(* assumptions of the examples *)
+Print Assumptions zops10_ok.
+Print Assumptions C10_converges_rs_example.
